@@ -595,9 +595,15 @@ func checkC19(p *Prog, r *Report) {
 						}
 					}
 				}
-				if len(cases) == 0 {
+				unresolved := false
+				for _, n := range registered {
+					if n == "?" {
+						unresolved = true
+					}
+				}
+				if len(cases) == 0 || unresolved {
 					r.OKTrivial(kp("WIRE", "upgrade:"+uname+"#every-legacy-subspace-has-a-key-table"), "every legacy params subspace the app registers gets a key table from the migration handler", p.FnPos(fn),
-						"the handler does not choose key tables by comparing subspace names with constants: not decided")
+						"the handler does not choose key tables by comparing subspace names with constants, or a subspace is registered under a name that is not a constant at the call: not decided")
 					continue
 				}
 				var missing []string
